@@ -26,7 +26,7 @@ pub use gt_types_impl::*;
 pub fn parse_systems(
     doc: &roxmltree::Document,
 ) -> Result<(Vec<String>, Vec<VypSystem>), anyhow::Error> {
-    let (factores_correccion_sistemas, sistemas) = vyp_sys::parse_systems(doc);
+    let (factores_correccion_sistemas, sistemas) = vyp_sys::parse_systems(doc)?;
     let gt_systems = gt_sys::parse_systems(doc)?;
     // let horarios = todo!();
 
